@@ -1,7 +1,8 @@
-"""C07 — pubsub.Queue under deterministic schedules (T-sched); see queueref.py for the oracle."""
+"""C07 — pubsub.Queue and pubsub.Deque under deterministic schedules (T-sched); see queueref.py / dequeref.py for the oracles."""
 from . import common as C
 from . import schedlog as SL
 from . import queueref as Q
+from . import dequeref as D
 
 PROP = "C07"
 LEVEL = "proof"
@@ -13,26 +14,50 @@ RULE = ("2-5 logical threads over one Queue (unlimited, or hard limit<=6 with so
         "operation parked and something was woken; distinct = distinct case lines.")
 TRUSTED = ["sync.Mutex / sync.Cond (FIFO wake-up) / context modelled", "the verif hooks in pubsub/queue.go mark the segment "
            "boundaries (MANIFEST.hooks)", "burst credit is a float64: the executable model uses Lean's IEEE Float"]
-ASSUMPTIONS = ["segments are atomic (they run under q.mu)"]
+ASSUMPTIONS = ["segments are atomic (they run under q.mu / dq.mtx)"]
+DMIX = {"roles": ["bproducer", "waiter", "waiter", "consumer", "producer", "bproducer", "forcer"], "close": 0.25, "bounded": False}
+RULE += (" Deque half: the same over one pubsub.Deque (unlimited / capacity / queue-options tracker) with the role mix " + str(DMIX["roles"]) +
+         " and the schedule shapes {burst of pushes before any waiter runs, waiters first, pop racing push, close racing wait, cancel "
+         "racing park, WaitPush on a full deque, mixed ends} with 1-3 consumers and 1-2 producers on both ends; the log ends when only "
+         "re-parking resumes (the Signal-before-Wait ping-pong) are left; oracle: checks/dequeref.py.")
+TRUSTED = TRUSTED + ["the verif hooks in pubsub/deque.go"]
 
 
 def gen(rng, tier, open_keys):
     n = 500 if tier == "quick" else 40000
-    return [Q.gen_case(rng, MIX) for _ in range(n)]
+    out = [Q.gen_case(rng, MIX) for _ in range(n)]
+    out += [D.gen_case(rng, DMIX) for _ in range(n)]
+    out += [D.gen_shape(rng) for _ in range(2 * n)]
+    return out
 
 
 def corpus():
-    return ["(queue (cfg soft 3 1 2 1) (thread (add 1)) (thread (badd 2)) (thread (next 0) (next 0)) (thread (add 3)) (choices 0 0 0 0 0))",
+    return ["(dqprobe wait)", "(dqprobe wpush)", "(dqprobe iter)",
+            "(deque (cfg unlimited) (thread (pushf 1) (pushb 2) (close)) (thread (waitf) (waitb) (waitf)) (thread (biter 0) (biter 0) (biter 0)) (choices 1 1 0 0 1 1 0 0 0 0 0 0 0 0))",
+            "(deque (cfg cap 2) (thread (wpushb 1) (wpushb 2) (wpushb 3) (len)) (thread (popf) (waitf)) (choices 0 0 0 0 0 0 0 0))",
+            # D1: WaitFront on a non-empty deque; D2: push into an empty deque with a WaitBack waiter; D3: Close with blocked waiters
+            "(deque (cfg unlimited) (thread (pushb 1) (pushb 2)) (thread (waitf) (waitf)) (choices 0 0 0 0))",
+            "(deque (cfg unlimited) (thread (waitb)) (thread (pushf 1)) (choices 0 0))",
+            "(deque (cfg cap 1) (thread (waitf)) (thread (waitb)) (thread (pushb 1) (wpushb 2)) (thread (close)) (choices 0 0 0 0 1))",
+           ] + ["(queue (cfg soft 3 1 2 1) (thread (add 1)) (thread (badd 2)) (thread (next 0) (next 0)) (thread (add 3)) (choices 0 0 0 0 0))",
             "(qprobe wait)", "(qprobe badd)", "(queue (cfg unlimited) (thread (add 1) (add 2) (close)) (thread (wait) (wait) (wait)) (thread (next 0) (next 0) (next 0)) (choices 1 1 0 0 1 1 0 0 0 0 0 0 0 0))",
             "(queue (cfg soft 2 1 1 1) (thread (badd 1) (badd 2) (badd 3) (len)) (thread (remove) (wait)) (choices 0 0 0 0 0 0 0 0))"]
 
 
+def is_deque(line):
+    return line.startswith("(deque") or line.startswith("(dqprobe")
+
+
 def predicate(line, obs, allow_known=False):
-    return Q.full_predicate(line, obs)
+    return D.full_predicate(line, obs) if is_deque(line) else Q.full_predicate(line, obs)
 
 
-features = Q.features
-nontrivial = Q.nontrivial
+def features(line, obs):
+    return D.features(line, obs) if is_deque(line) else Q.features(line, obs)
+
+
+def nontrivial(line, obs):
+    return D.nontrivial(line, obs) if is_deque(line) else Q.nontrivial(line, obs)
 
 
 def shrink(line, fails):
